@@ -5,7 +5,7 @@ from .. import scenario
 
 ID = "C10"
 LEVEL = "fault_enumeration"
-RULE = ("the full cross product (declaration context: module / function / block, each declared as `const C: T = v`, `const C = v`, by "
+RULE = ("the full cross product (declaration context: module / function / if block / from-loop body / while-loop body / else block, each declared as `const C: T = v`, `const C = v`, by "
         "unpacking `const [C, z] = [v, 0]` or as `export const`; class name / imported module / imported module under another name / imported scalar member / imported list member / a constant followed by a same-named class alias / by an import of a module file with its name) x (type: int, str, bool, [int...], int?, object with a field, optional object, optional list) x (write form: =, += -= *= /= %=, ?= in "
         "statement / if / while position, modify = from an inner function (untyped / typed, also after the inner function declared its own variable of that name), c[i] = v, c[i] += v, c.f = v, c.f += v, (get c).f += v, (c or d).f += v, (get c)[i] += v, reuse as "
         "from-loop counter, unpacking) x (write context: same scope, nested block, loop body, nested function, method, another "
@@ -75,7 +75,7 @@ def write_forms(t):
 
 
 WRITE_CTX = ["same", "block", "loop", "while", "fn", "method", "closure-in-block"]
-DECL_CTX = ["module", "function", "block"]
+DECL_CTX = ["module", "function", "block", "from-body", "while-body", "else-body"]
 
 
 def ind(text, n=1):
@@ -137,6 +137,12 @@ def program(decl_ctx, t, form, wtext, wctx, dform="typed", const=True):
         return pre + "print \"@start\"\n" + body + "\n"
     if decl_ctx == "function":
         return pre + "print \"@start\"\nmain = fn() {\n%s\n}\nmain()\n" % ind(body)
+    if decl_ctx == "from-body":
+        return pre + "print \"@start\"\nfrom 0 to 1, dround {\n%s\n}\n" % ind(body)
+    if decl_ctx == "while-body":
+        return pre + "print \"@start\"\ndq = 0\nwhile dq < 1 {\n\tdq = dq + 1\n%s\n}\n" % ind(body)
+    if decl_ctx == "else-body":
+        return pre + "print \"@start\"\ndq = 0\nif dq > 0 {\n\tprint \"no\"\n} else {\n%s\n}\n" % ind(body)
     return pre + "print \"@start\"\nif true {\n%s\n}\n" % ind(body)
 
 
@@ -160,6 +166,11 @@ def special_programs():
         for w in ("k.V = 7", "k.V += 1", "k.counter = 3", "k.counter += 1", "k.counter ?= 3"):
             src = "import lib\nk = lib\nprint \"@start\"\n" + place_write(w, ctx) + "\nprint \"@obs\"\nprint lib.%s\nprint lib.%s\n" % (("V", "get_v()") if "V" in w else ("counter", "counter"))
             out.append(({"decl": "module-alias", "type": "module", "form": w, "wctx": ctx}, {"main.ms": src, "lib.ms": lib}, "5" if "V" in w else "0"))
+        # a const OBJECT of the module written through `or`, the module (under another name) on either side of it
+        libo = "export class P {\n\tn: int\n\tconstructor(self) {\n\t\tself.n = 5\n\t}\n}\nexport const p: P = P()\nexport get_n: fn() -> int = fn() -> int {\n\treturn p.n\n}\n"
+        for w in ("(d or k.p).n += 1", "(d or lib.p).n += 1", "(k.p or e).n += 1", "if true {\n}\n(d or k.p).n = 7", "((d or k.p)).n -= 1", "(d or (d or k.p)).n += 1"):
+            src = "import lib\nimport P from lib\nk = lib\nd: P? = nil\ne = P()\nprint \"@start\"\nif true {\n}\n" + place_write(w, ctx) + "\nprint \"@obs\"\nprint (lib.p).n\nprint lib.get_n()\n"
+            out.append(({"decl": "module-member-through-or", "type": "obj", "form": w.split("\n")[-1], "wctx": ctx}, {"main.ms": src, "lib.ms": libo}, "5"))
         for w in ("V = 7", "V += 1", "V -= 1", "modify V = 7", "from 0 to 3, V {\n}", "[V, z] = [1, 2]", "V: int = 7"):
             if w.startswith("modify") and ctx != "fn":
                 continue
